@@ -13,6 +13,7 @@ import (
 )
 
 var _ = verifReg("C20", VerifC20)
+var _ = verifReg("C20payload", VerifC20payload)
 var _ = verifReg("C02", VerifC02)
 var _ = verifReg("C03", VerifC03)
 var _ = verifReg("C02bare", VerifC02bare)
@@ -96,7 +97,7 @@ func VerifC20() {
 				if claimsOK {
 					g = genP1Claims(0, 4)
 				}
-				verifStub.byBuf = append(verifStub.byBuf, verifBufClaims{buf: msg.Payload, g1: g})
+				verifScript(msg.Payload, g)
 			}
 		}
 	} else {
@@ -118,7 +119,8 @@ func VerifC20() {
 		ndAssert("c20-nil-or-empty-payload-is-an-error", len(msg.Payload) > 0 || err != nil)
 		ndAssert("c20-undecodable-payload-is-an-error", g != nil || err != nil)
 		if len(msg.Payload) > 0 {
-			ndAssert("c20-claims-decoded-from-message-payload", len(verifStub.bufs) > 0 && verifIsSameBuffer(verifStub.bufs[0], msg.Payload))
+			// (a payload rejected before it reaches the codec, e.g. the encoding of null, is an error)
+			ndAssert("c20-claims-decoded-from-message-payload", (len(verifStub.bufs) == 0 && err != nil) || (len(verifStub.bufs) > 0 && verifIsSameBuffer(verifStub.bufs[0], msg.Payload)))
 		}
 		if g != nil && len(buf) > 0 {
 			ndAssert("c20-accepts-wellformed", err == nil && ev != nil && ev.Claims != nil && obsSame(obsOf(ev.Claims), obsOf(g.c), -1))
@@ -204,10 +206,10 @@ func VerifC02() {
 	verifCose.decoded = att
 	if len(att.Payload) > 0 && !verifIsSameBuffer(att.Payload, honest.Payload) {
 		verifGenPfx = "t."
-		verifStub.byBuf = append(verifStub.byBuf, verifBufClaims{buf: att.Payload, g1: genP1Claims(0, 4)})
+		verifScript(att.Payload, genP1Claims(0, 4))
 		verifGenPfx = ""
 	} else if len(att.Payload) > 0 {
-		verifStub.byBuf = append(verifStub.byBuf, verifBufClaims{buf: att.Payload, g1: g})
+		verifScript(att.Payload, g)
 	}
 	abuf := ndBytes("attacker.bytes")
 	ndAssume(len(abuf) > 0)
@@ -336,7 +338,7 @@ func VerifC03() {
 		ndAssert("c03-token-is-the-marshalled-message", n > 0 && verifIsSameBuffer(tok, verifCose.toks[n-1].bytes) && c02sameMessage(&verifCose.toks[n-1].msg, e.message))
 		nt := len(verifCose.tbs)
 		ndAssert("c03-empty-external-data-on-both-sides", nt >= 2 && len(verifCose.tbs[nt-1].ext) == 0 && len(verifCose.tbs[nt-2].ext) == 0)
-		verifStub.byBuf = append(verifStub.byBuf, verifBufClaims{buf: e.message.Payload, g1: g})
+		verifScript(e.message.Payload, g)
 	}
 	ev, derr := DecodeAndValidateEvidenceFromCOSE(tok)
 	ndAssert("c03-own-token-decodes-and-validates", derr == nil && ev != nil)
@@ -523,4 +525,20 @@ func verifCBORInt(v int64) []byte {
 		return []byte{major | 26, byte(u >> 24), byte(u >> 16), byte(u >> 8), byte(u)}
 	}
 	return []byte{major | 27, byte(u >> 56), byte(u >> 48), byte(u >> 40), byte(u >> 32), byte(u >> 24), byte(u >> 16), byte(u >> 8), byte(u)}
+}
+
+// C20 "whose payload is itself a decodable claims map ... nil or non-map payloads are
+// rejected": the claims decoder on the encoding of ANY single item that is not a map (L3).
+// (Maps are C04's subject; tagged items carry no verdict.)
+func VerifC20payload() {
+	l3install()
+	it := c04arbitrary("payload")
+	if it.kind == ikMap || it.kind == ikTag {
+		return
+	}
+	buf := verifEncodeItem(it)
+	c, err := DecodeClaimsFromCBOR(buf)
+	ndAssert("c20-non-map-payload-is-not-a-claims-set", err != nil && c == nil)
+	ndCover("c20-payload-uint-rejected", err != nil && it.kind == ikUint)
+	ndCover("c20-payload-array-rejected", err != nil && it.kind == ikArray)
 }
